@@ -198,6 +198,30 @@ theorem parseRequests_flags_match_server (cfg : Cfg) (j : Msg) (h : j.errs ≠ [
   unfold classify
   simp [h]
 
+/-- **`ParseRequests` flags exactly the members the server refuses before looking for a handler**,
+with the same codes: a deferred parse error, or a missing method name ("If a request is valid, its
+Error field is nil" - a member without a method is not a request; a proxy such as the HTTP bridge
+must answer it itself and never forward it: finding F19) -/
+theorem parsed_flag_is_server_verdict (cfg : Cfg) (j : Msg) (h : parsedFlag j ≠ []) :
+    classify cfg [] j = .fail (parsedFlag j) := by
+  unfold parsedFlag at h ⊢
+  unfold classify
+  by_cases he : j.errs = []
+  · by_cases hm : j.m = []
+    · simp [he, hm]
+    · simp [he, hm] at h
+  · simp [he]
+
+/-- and an unflagged member has a method name and no deferred error: what a proxy forwards is a
+request -/
+theorem unflagged_is_request (j : Msg) (h : parsedFlag j = []) : j.errs = [] ∧ j.m ≠ [] := by
+  unfold parsedFlag at h
+  by_cases he : j.errs = []
+  · by_cases hm : j.m = []
+    · simp [he, hm] at h
+    · exact ⟨he, hm⟩
+  · simp [he] at h
+
 /-! ### outbound parameters -/
 
 /-- whatever value is marshalled, a transmitted request has either no `params` member or one whose
